@@ -13,7 +13,7 @@
 # limitations under the License.
 
 
-from math import factorial, prod
+from math import factorial, prod, sqrt
 
 import numpy as np
 from thewalrus import perm
@@ -37,8 +37,10 @@ class Permanent:
         factor_m = prod([factorial(i) for i in in_state])
         factor_n = prod([factorial(i) for i in out_state])
         # Calculate permanent for given input/output
+        # math.sqrt accepts Python integers of any size (the product of the
+        # factorials exceeds 64 bits from 13 photons in one mode onwards)
         return perm(partition(unitary, in_state, out_state)) / (
-            np.sqrt(factor_m * factor_n)
+            sqrt(factor_m * factor_n)
         )
 
 
